@@ -100,7 +100,7 @@ class Design:
             self._declare(m, name, "sig")
             m.sigs[name] = (width, vis, d)
         elif k == "bun":
-            _, mid, name, bid, port, flipped = op
+            _, mid, name, bid, port, flipped = op[:6]  # op[6]: how it is created (ctor | mul | flip), same meaning
             m = self.mods[mid]
             self._declare(m, name, "bun")
             m.buns[name] = (bid, bool(port), bool(flipped))
